@@ -161,11 +161,32 @@ def run_config(H, cfg, tier):
         summary["completed"] = completed
     except core.Unsupported as e:
         summary["errors"].append(f"unsupported construct: {e} cfg={cfg}\n" + traceback.format_exc()[-800:])
+        _fallback_concrete(H, cfg, summary)
     except Exception:
         summary["errors"].append(f"harness error cfg={cfg}\n" + traceback.format_exc()[-1500:])
+        _fallback_concrete(H, cfg, summary)
     summary["stats"] = dict(core.STATS)
     summary["wall_s"] = time.time() - t0
     return summary
+
+
+def _fallback_concrete(H, cfg, summary):
+    """The symbolic exploration of this configuration broke down (the code under check did something the proxies cannot
+    follow).  The verdict for the configuration stays 'harness error' (exit 2) UNLESS the same body, run concretely on the
+    un-instrumented code with generic input values, fails its oracle checks: that is a reproducible violation and is
+    reported as one (it is replayed again, like every counterexample, before it is printed)."""
+    from .mode import Mode
+    from . import core, install
+    try:
+        cm = Mode(values={}, tol=getattr(H, "TOL", 1e-9), generic=True)
+        with install.uninstrumented():
+            H.body(cm, cfg)
+    except BaseException:
+        return
+    if cm.failed:
+        key = next((k for k in cm.failed if k != "*"), "*")
+        summary["violations"].append({"key": f"{H.PROP}:{key}", "label": "concrete fallback run (generic inputs) fails the oracle",
+                                      "cfg": cfg, "values": _jsonable(cm.values), "info": _jsonable(getattr(cm, "notes", None))})
 
 
 def _compare_observed(m, cm, mdl):
